@@ -97,7 +97,8 @@ def handlers : List (String × Handler) := [
         let f : Option Nat := if fl == "enter" then enterIdx else if fl == "body" then some (yieldIndex cs) else none
         let nm (c : Cwd) := if c == .orig then "orig" else "target"
         "ok inside=" ++ nm (cwdInside cs) ++ " after=" ++ nm (cwdAfter cs f) ++
-          " effects=" ++ toString (ctxEffectsBefore cs f).length ++ " entered=" ++ toString (fl != "enter" || enterIdx.isNone)
+          " mkdirs=" ++ toString ((ctxEffectsBefore cs f).filter (·.kind == .mkdir)).length ++
+          " otherEffects=" ++ toString ((ctxEffectsBefore cs f).filter (·.kind != .mkdir)).length ++ " entered=" ++ toString (fl != "enter" || enterIdx.isNone)
       | _, _ => "err args"
     | _ => "err args"),
   ("write.steps", fun
